@@ -2007,6 +2007,13 @@ func (self *LockDB) Lock(serverProtocol ServerProtocol, command *protocol.LockCo
 	   |               |contains_data|lock_tree_lock|concurrent_check|from_aof|when_locked_update_lock|when_locked_show_lock|
 	*/
 
+	if command.Flag&protocol.LOCK_FLAG_FROM_AOF != 0 {
+		if _, ok := serverProtocol.(*MemWaiterServerProtocol); !ok {
+			// only the log loader and the replication stream (in-memory protocol) may mark a
+			// command as coming from the log; a client connection cannot
+			command.Flag &^= protocol.LOCK_FLAG_FROM_AOF
+		}
+	}
 	if command.Flag&protocol.LOCK_FLAG_CONCURRENT_CHECK != 0 && command.Timeout == 0 {
 		lockManager := self.GetLockManager(command)
 		if lockManager != nil && command.Count < 0xffff && lockManager.locked > uint32(command.Count) {
@@ -2347,6 +2354,11 @@ func (self *LockDB) UnLock(serverProtocol ServerProtocol, command *protocol.Lock
 	   |                   |contains_data|unlock_tree_lock|succed_to_lock_wait|from_aof|when_unlocked_cancel_wait|when_unlocked_unlock_first_lock|
 	*/
 
+	if command.Flag&protocol.UNLOCK_FLAG_FROM_AOF != 0 {
+		if _, ok := serverProtocol.(*MemWaiterServerProtocol); !ok {
+			command.Flag &^= protocol.UNLOCK_FLAG_FROM_AOF
+		}
+	}
 	lockManager := self.GetLockManager(command)
 	if lockManager == nil {
 		if self.status != STATE_LEADER && command.Flag&protocol.UNLOCK_FLAG_FROM_AOF == 0 {
